@@ -115,13 +115,13 @@ pub fn run_scenario(run: &Run, sc: &Scenario, max_states: usize) -> SearchStats 
         setup_cfg.mints = true;
         match advance_by_labels(run, root.clone(), &setup_cfg, &sc.setup_labels) {
             Some(n) => root = n,
-            None => run.machinery_failure(&format!("scenario {}: set-up by labels {:?} failed", sc.name, sc.setup_labels)),
+            None => return prefix_failed(run, sc, "set-up by labels"),
         }
     }
     for a in &sc.pre {
         match eng.step(&root, a) {
             StepOut::Next(n) => root = n,
-            _ => run.machinery_failure(&format!("scenario {}: pre-action {} failed", sc.name, a.label())),
+            _ => return prefix_failed(run, sc, &a.label()),
         }
     }
     let cfg = sc.cfg.clone();
@@ -134,6 +134,16 @@ pub fn run_scenario(run: &Run, sc: &Scenario, max_states: usize) -> SearchStats 
                "transitions": st.transitions, "frontier_sizes": st.frontier_sizes, "max_txs_per_block": sc.cfg.max_txs_per_block}),
     );
     st
+}
+
+/// The honest, scripted prefix of a scenario was not accepted.  When the engine has recorded why (a violation of some property on
+/// that prefix) the scenario is skipped and the run is marked as not exhaustive; without any recorded reason it is a machinery failure.
+fn prefix_failed(run: &Run, sc: &Scenario, step: &str) -> SearchStats {
+    if run.violation_count() == 0 {
+        run.machinery_failure(&format!("scenario {}: scripted prefix step {} failed without a recorded violation", sc.name, step));
+    }
+    run.cap_hit(&format!("scenario {} skipped: its scripted prefix stopped at step {} (violations recorded on the prefix are reported by the checks of their properties)", sc.name, step));
+    SearchStats::default()
 }
 
 pub fn sample_alphabet(run: &Run, sc: &Scenario) {
